@@ -69,7 +69,7 @@ Section Skel.
   Lemma udn_core_P st n pxo a s' : user_delete_node_core st n pxo = Ok a s' ->
     exists s b, P st s /\ do_del_node s n pxo = Ok b s'.
   Proof.
-    unfold user_delete_node_core. intros H. destruct (negb (has_node st n)); [discriminate|].
+    unfold user_delete_node_core. intros H. destruct (px_check st pxo); [discriminate|]. destruct (negb (has_node st n)); [discriminate|].
     ok_step H acts1 s1 H1. assert (E1 := P_ok _ _ _ _ (P_udn_preds _ _ _ _) H1).
     ok_step H acts2 s2 H2. assert (E2 := P_ok _ _ _ _ (P_udn_succs _ _ _ _) H2).
     ok_step H ao s3 H3.
@@ -345,7 +345,7 @@ Qed.
 Lemma udn_core_rec st n p a s' : user_delete_node_core st n (Some p) = Ok a s' ->
   exists l saved, a = AGroup (l ++ [ABasic (BDelNode n saved (Some p))]) /\ acts_all basic_neutral l.
 Proof.
-  unfold user_delete_node_core. intros H. destruct (negb (has_node st n)); [discriminate|].
+  unfold user_delete_node_core. intros H. destruct (px_check st (Some p)); [discriminate|]. destruct (negb (has_node st n)); [discriminate|].
   ok_step H acts1 s1 H1. apply udn_preds_rec in H1; [|exact I].
   ok_step H acts2 s2 H2. apply udn_succs_rec in H2; [|exact H1].
   ok_step H ao s3 H3. destruct ao as [acts3 orphans].
@@ -427,7 +427,7 @@ Proof.
   assert (Ktn := P_track_neighbors keepN keepN_refl keepN_bk st T (match tv with VZ z => z | _ => 0 end)).
   destruct (track_neighbors st T _) as [st0 [pred succ]]. cbn [fst] in Ktn.
   ok_step H conflicts s1 H1. assert (E1 : s1 = st0) by (rewrite <- (uan_conflicts_state st0 pred succ force), H1; reflexivity). subst s1.
-  cbn [negb] in H.
+  cbn [negb] in H. destruct (px_check st0 (Some p)); [discriminate|].
   ok_step H acts s2 H2.
   assert (K2 := P_ok keepN _ _ _ _ (P_uan_cut keepN keepN_refl keepN_trans keepN_del_edge keepN_upd_track _ _ _) H2).
   apply uan_cut_rec in H2; [|exact I].
